@@ -367,7 +367,20 @@ func (p *Proxy) handleConnectRequest(ctx *Context, req *http.Request, session *S
 			}
 			brw.Writer.Reset(nconn)
 			brw.Reader.Reset(nconn)
-			return p.handle(ctx, nconn, brw)
+			session.setConn(nconn, brw)
+
+			// Every request read from the tunnel, not only the first, is handled on
+			// the decrypted connection.
+			for {
+				nconn.SetDeadline(time.Now().Add(p.timeout))
+				err := p.handle(ctx, nconn, brw)
+				if isCloseable(err) {
+					return err
+				}
+				if session.Hijacked() {
+					return nil
+				}
+			}
 		}
 
 		// Prepend the previously read data to be read again by http.ReadRequest.
